@@ -203,3 +203,38 @@ def check(model: Model, run: Run) -> None:
                     else:
                         same = bool(equal & fs)
     run.check(removed and created and changed and same, rf.qualname, 'remove / new peer / reestablish / reconfigure (%s)' % [removed, created, changed, same], rf.loc(), 'each neighbor is handled according to what changed: gone -> remove, new -> Peer, different -> reestablish, equal -> reconfigure')
+
+    # ------------------------------------------------------------------ R5 equal neighbors send equal OPENs
+    run.rule('C17.R5', 'Reactor.reload keeps the session of a neighbor that compares equal: Neighbor.__eq__ therefore compares everything the OPEN is built from (what Capabilities.new and Protocol.new_open read from the neighbor)', floor=6)
+
+    def first_attrs(f, base: str) -> set[str]:
+        out = set()
+        for n in ast.walk(f.node):
+            if isinstance(n, ast.Attribute):
+                d = dotted(n)
+                if d and d.startswith(base + '.'):
+                    parts = d[len(base) + 1 :].split('.')
+                    out.add('.'.join(parts[:2]) if parts[0] == 'session' and len(parts) > 1 else parts[0])
+        return out
+
+    used: dict[str, str] = {}
+    for q, f in sorted(model.funcs.items()):
+        if q.startswith('exabgp.bgp.message.open.capability.capabilities.Capabilities.') and len(f.node.args.args) > 1 and f.cls is not None:
+            p1 = f.node.args.args[1].arg
+            ann = f.node.args.args[1].annotation
+            if ann is not None and 'Neighbor' in norm(ann):
+                for a in first_attrs(f, p1):
+                    used.setdefault(a, short(q))
+    no = model.func('exabgp.reactor.protocol.Protocol.new_open')
+    run.analysed(no)
+    for a in first_attrs(no, 'self.neighbor'):
+        used.setdefault(a, short(no.qualname))
+    eq = model.func('exabgp.bgp.neighbor.neighbor.Neighbor.__eq__')
+    run.analysed(eq)
+    compared = first_attrs(eq, 'self')
+    if len(used) < 6:
+        run.cannot('only %d neighbor fields found in the construction of the OPEN' % len(used))
+    for a, where in sorted(used.items()):
+        if a == 'session':
+            continue
+        run.check(a in compared, eq.qualname, 'compares neighbor.%s (read by %s when the OPEN is built)' % (a, where), eq.loc(), 'a reload that changes only neighbor.%s yields a neighbor equal to the running one: Reactor.reload calls reconfigure() and the session keeps the capabilities of the OLD OPEN, so the routes of the new configuration that depend on it are not delivered as configured' % a)
